@@ -379,6 +379,17 @@ def validate_api(chk, oracle, tables):
     chk.log('translator validation: %d/%d public-API probes agree with the engine\'s guard tables' % (ok, total))
 
 
+DEVDEP_FILES = {
+    'gleam.toml': 'name = "app"\nversion = "0.1.0"\n\n[dependencies]\ndep = "1.0"\n\n[dev-dependencies]\ndevdep = "1.0"\n',
+    'src/app.gleam': 'import dep_mod\n\npub fn main() {\n  dep_mod.helper()\n}\n',
+    'test/app_test.gleam': 'import devdep\n\npub fn check() {\n  devdep.helper()\n}\n',
+    'build/packages/dep/gleam.toml': 'name = "dep"\nversion = "1.0.0"\n',
+    'build/packages/dep/src/dep_mod.gleam': 'pub fn helper() { 1 }\n',
+    'build/packages/devdep/gleam.toml': 'name = "devdep"\nversion = "1.0.0"\n',
+    'build/packages/devdep/src/devdep.gleam': 'pub fn helper() { 2 }\n\npub fn other() { helper() }\n',
+}
+
+
 def main(tier, seed):
     global W2
     from mirsym import native
@@ -450,6 +461,23 @@ def main(tier, seed):
             chk.log('alias refusal: %d/%d aliased spellings are refused by rename and prepare_rename through the public API' % (len(probes), len(probes)))
     finally:
         oracle.close(); W2.cleanup()
+    # on-disk scenario (real binary): a dependency and a dev-dependency under build/packages - rename must be refused in both
+    try:
+        from mirsym import lsp_replay
+        out, alive = lsp_replay.ondisk_session(lsp_replay.build_binary(), DEVDEP_FILES, ['src/app.gleam', 'test/app_test.gleam', 'build/packages/devdep/src/devdep.gleam', 'build/packages/dep/src/dep_mod.gleam'],
+                                               [(m_, f_, (0, 8), ({'newName': 'renamed'} if m_.endswith('/rename') else None))
+                                                for f_ in ('build/packages/devdep/src/devdep.gleam', 'build/packages/dep/src/dep_mod.gleam') for m_ in ('textDocument/prepareRename', 'textDocument/rename')])
+        labels = ['prepareRename in the dev-dependency', 'rename in the dev-dependency', 'prepareRename in the dependency', 'rename in the dependency']
+        bad = [(l, r) for l, r in zip(labels, out) if not (isinstance(r, dict) and 'error' in r)]
+        if not alive:
+            bad.append(('server', 'died'))
+        for l, r in bad[:2]:
+            chk.violation('rename:build-packages', 'fixture', 'real server on an on-disk project (dep under [dependencies], devdep under [dev-dependencies], both in build/packages): %s is accepted: %s' % (l, json.dumps(r)[:300]),
+                          {'kind': 'ondisk-devdep'}, confirmed=True)
+        if not bad:
+            chk.validated += 4
+    except Exception as e:
+        chk.inconclusive.append('on-disk rename scenario failed: %s' % e)
     chk.assumptions += [
         'part b is under-constrained execution: find_def, Definition::{module,name}, Package::is_local, the usage search and every other database callee return unconstrained values; the lexer and the Option/Result plumbing are real; a path that reaches the usage search is taken as "produces edits"',
         'every under-constrained finding is replayed through the public API (ide::Analysis::{prepare_rename, rename}) on a two-package fixture (one local, one under build/packages) before it is reported',
